@@ -80,7 +80,7 @@ theorem bump1_refines (t n : Int) (u : Per) (ht : 0 ≤ t) (st : Gen.Step) (t' :
     (hst : Gen.bumpUnit u.letter n = some st) (h : Bump.applyStep t st = .ok t') : t' = bump1 t n u := by
   cases u <;> simp [Per.letter, Gen.bumpUnit] at hst <;> subst hst
   · simp only [Bump.applyStep, Bump.checkRange_ok] at h; rw [h.2]; simp only [bump1, DAY, Bump.DAYUS]; omega
-  · simp only [Bump.applyStep, Bump.checkRange_ok] at h
+  · have h := Bump.bday_ok _ _ _ h
     rw [h.2]; simp only [bump1, bOff_eq_gen, wdT_eq, DAY, Bump.DAYUS]; omega
   · simp only [Bump.applyStep, Bump.checkRange_ok] at h; rw [h.2]; simp only [bump1, DAY, Bump.DAYUS]; omega
   · rw [applyStep_ymdShift t 0 n ht] at h
@@ -105,7 +105,7 @@ theorem applyStep_nonneg (t : Int) (st : Gen.Step) (t' : Int) (ht : 0 ≤ t) (h 
   cases st with
   | days k => simp only [Bump.applyStep, Bump.checkRange_ok] at h; omega
   | micros k => simp only [Bump.applyStep, Bump.checkRange_ok] at h; omega
-  | bday k => simp only [Bump.applyStep, Bump.checkRange_ok] at h; omega
+  | bday k => have h := Bump.bday_ok _ _ _ h; omega
   | ymdShift dy dm =>
     rw [applyStep_ymdShift t dy dm ht] at h
     split at h
@@ -154,14 +154,17 @@ theorem applyStep_ymdShift_defined (t dy dm : Int) (ht : 0 ≤ t)
 
 /-- one period part, both directions: from `t ≥ 0` the C09 step returns a value iff the DRange step is a
 representable instant, and then it is that instant -/
-theorem bump1_defined (t n : Int) (u : Per) (ht : 0 ≤ t) (h0 : 0 ≤ bump1 t n u) (h1 : bump1 t n u < Bump.MAXUS) :
+theorem bump1_defined (t n : Int) (u : Per) (ht : 0 ≤ t) (h0 : 0 ≤ bump1 t n u) (h1 : bump1 t n u < Bump.MAXUS)
+    (hb : u = Per.b → ∀ k ∈ Gen.bOffPath (Bump.wdOf t) n, Bump.InRange (t + k * Bump.DAYUS)) :
     ∃ st, Gen.bumpUnit u.letter n = some st ∧ Bump.applyStep t st = .ok (bump1 t n u) := by
   have hr : Bump.checkRange (bump1 t n u) = .ok (bump1 t n u) := by rw [Bump.checkRange_ok]; exact ⟨⟨h0, h1⟩, rfl⟩
   cases u
   · refine ⟨.days n, by simp [Per.letter, Gen.bumpUnit], ?_⟩
     rw [← hr]; simp only [Bump.applyStep, bump1, DAY, Bump.DAYUS]; congr 1; omega
   · refine ⟨.bday n, by simp [Per.letter, Gen.bumpUnit], ?_⟩
-    rw [← hr]; simp only [Bump.applyStep, bump1, bOff_eq_gen, wdT_eq, DAY, Bump.DAYUS]; congr 1; omega
+    rw [Bump.bday_ok_iff]
+    refine ⟨hb rfl, ?_⟩
+    simp only [bump1, bOff_eq_gen, wdT_eq, DAY, Bump.DAYUS]; omega
   · refine ⟨.days (7 * n), by simp [Per.letter, Gen.bumpUnit], ?_⟩
     rw [← hr]; simp only [Bump.applyStep, bump1, DAY, Bump.DAYUS]; congr 1; omega
   · refine ⟨.ymdShift 0 n, by simp [Per.letter, Gen.bumpUnit], ?_⟩
@@ -185,9 +188,10 @@ theorem bump1_defined (t n : Int) (u : Per) (ht : 0 ≤ t) (h0 : 0 ≤ bump1 t n
 
 /-- a single token: the C09 model's run over `[k]` -/
 theorem runToks_single_defined (k : Bump.Tok) (n : Int) (u : Per) (hk : k.value = n ∧ k.unit = u.letter) (t : Int)
-    (ht : 0 ≤ t) (h0 : 0 ≤ bump1 t n u) (h1 : bump1 t n u < Bump.MAXUS) :
+    (ht : 0 ≤ t) (h0 : 0 ≤ bump1 t n u) (h1 : bump1 t n u < Bump.MAXUS)
+    (hb : u = Per.b → ∀ j ∈ Gen.bOffPath (Bump.wdOf t) n, Bump.InRange (t + j * Bump.DAYUS)) :
     Bump.runToks t [k] = .ok (bump1 t n u) := by
-  obtain ⟨st, hst, ha⟩ := bump1_defined t n u ht h0 h1
+  obtain ⟨st, hst, ha⟩ := bump1_defined t n u ht h0 h1 hb
   simp only [Bump.runToks, Bump.applyTok, hk.1, hk.2, hst, ha, Except.bind]
 
 /-- the parts a token list stands for -/
